@@ -92,8 +92,6 @@ func TestVF_C39(t *testing.T) {
 		skipped := map[uint64]bool{}
 		idsByOff := map[uint64]map[string]bool{}
 		var maxAll uint64
-		var minReal, maxReal uint64
-		first := true
 		dups := false
 		placeholders := 0
 		for _, l := range [][]vfC39Pub{rec, buf} {
@@ -114,19 +112,29 @@ func TestVF_C39(t *testing.T) {
 					idsByOff[p.Off] = map[string]bool{}
 				}
 				idsByOff[p.Off][fmt.Sprintf("%d", p.ID)] = true
-				if first || p.Off < minReal {
-					minReal = p.Off
-				}
-				if first || p.Off > maxReal {
-					maxReal = p.Off
-				}
-				first = false
 			}
 		}
+		// "The merged offsets have a hole not covered by filtered placeholders": every offset seen in either list
+		// (real or placeholder) up to the maximum seen offset - which the function reports and the caller adopts as
+		// the new position - must be accounted for. (An earlier version of this oracle only looked between the real
+		// publications, mirroring the code; C01's check found a silent gap next to a trailing placeholder, the
+		// statement was re-read and the code fixed.)
 		hole := false
-		if len(buf) > 0 && !first {
-			for o := minReal; o < maxReal; o++ {
-				if !real[o] && !skipped[o] {
+		if len(buf) > 0 {
+			seen := map[uint64]bool{}
+			var minAll uint64
+			firstAll := true
+			for _, l := range [][]vfC39Pub{rec, buf} {
+				for _, p := range l {
+					seen[p.Off] = true
+					if firstAll || p.Off < minAll {
+						minAll = p.Off
+					}
+					firstAll = false
+				}
+			}
+			for o := minAll; o < maxAll; o++ {
+				if !seen[o] {
 					hole = true
 					break
 				}
